@@ -145,6 +145,14 @@ theorem string_route_reads_as_reference_partial (r : NameRow) (hr : r ∈ allRow
     | unique k c => exact ⟨k, c, rfl, by simpa [hv] using h⟩
   · rw [hg] at h; cases h
 
+/-- non-vacuity: the table has rows outside the guard (its very first row, `m`) and rows inside it -/
+example : (rowsChunk 0).head?.map (fun r => excluded r.name) = some false := by decide +kernel
+example : ((rowsChunk witnessChunk).any fun r => excluded r.name) = true := by decide +kernel
+example : allRows.length = 3872 ∨ allRows.length = invCount := Or.inr (by
+  have h := (by decide +kernel : namespacesClosed = true)
+  simp only [namespacesClosed, Bool.and_eq_true, beq_iff_eq] at h
+  exact h.2)
+
 /-- … and the same holds for the tables at `Float` (what the driver runs) and at `Rat` -/
 theorem string_route_reads_as_reference_any_carrier (K : Type) [OfBits K] (r : NameRow)
     (hr : r ∈ allRows) (hg : excluded r.name = false) :
